@@ -170,17 +170,11 @@ def proof_status(prop, thorough=False):
 # ---- string transport (see Driver/Main.lean)
 
 def enc(s):
-    out = []
-    for ch in s:
-        o = ord(ch)
-        if 0xE000 <= o <= 0xE7FF:
-            raise ValueError("private-use code point in harness input")
-        out.append(chr(o + 0x800) if 0xD800 <= o <= 0xDFFF else ch)
-    return "".join(out)
-
-
-def dec(s):
-    return "".join(chr(ord(ch) - 0x800) if 0xE000 <= ord(ch) <= 0xE7FF else ch for ch in s)
+    """strings travel as JSON strings; a string containing a surrogate (from surrogateescape) cannot
+    be a Lean String, so it travels as {"$s": [code points]}"""
+    if any(0xD800 <= ord(ch) <= 0xDFFF for ch in s):
+        return {"$s": [ord(ch) for ch in s]}
+    return s
 
 
 def enc_deep(x):
@@ -194,11 +188,11 @@ def enc_deep(x):
 
 
 def dec_deep(x):
-    if isinstance(x, str):
-        return dec(x)
     if isinstance(x, list):
         return [dec_deep(y) for y in x]
     if isinstance(x, dict):
+        if len(x) == 1 and "$s" in x:
+            return "".join(chr(c) for c in x["$s"])
         return {k: dec_deep(v) for k, v in x.items()}
     return x
 
@@ -212,7 +206,9 @@ def lean_batch(requests, driver="Main.lean", timeout=1800):
                        input=data.encode("utf-8"), capture_output=True, timeout=timeout)
     if p.returncode != 0:
         raise Infra("Lean driver failed: " + p.stderr.decode("utf-8", "replace")[-800:] + p.stdout.decode("utf-8", "replace")[-400:])
-    lines = p.stdout.decode("utf-8").splitlines()
+    lines = p.stdout.decode("utf-8").split("\n")   # NOT splitlines(): U+2028, \x85, \x0c ... may occur inside JSON strings
+    if lines and lines[-1] == "":
+        lines.pop()
     if len(lines) != len(requests):
         raise Infra("Lean driver answered %d lines for %d requests: %s" % (len(lines), len(requests), p.stderr.decode("utf-8", "replace")[-400:]))
     return [dec_deep(json.loads(l)) for l in lines]
